@@ -37,12 +37,12 @@ type memoSite struct {
 type termCtx struct {
 	extra     []string
 	cellLimit map[*ssa.Alloc]int
-	suffix string
-	decls  map[string]string // symbol -> declaration
-	memo   map[ssa.Value]string
-	leaves []string
-	fn     *ssa.Function
-	g      *Global
+	suffix    string
+	decls     map[string]string // symbol -> declaration
+	memo      map[ssa.Value]string
+	leaves    []string
+	fn        *ssa.Function
+	g         *Global
 }
 
 func smtStrLit(s string) string {
